@@ -14,7 +14,11 @@ every lock region; `printStatus` runs on the ticker goroutine (it is reached fro
 every pair of accesses to the same `walkContext` field, one on the ticker goroutine and one on the walking
 goroutine, at least one of them a write (initialisation of the not-yet-shared object excepted), BOTH are lexically
 between `statusMu.Lock()` and the matching `Unlock()` / deferred `Unlock()`.  The fields concerned are exactly
-`inodesVisited`, `extractCalls`, `currentPath` … (whatever `sharedFields` evaluates to now) and there is at least one. -/
+`inodesVisited`, `extractCalls`, `currentPath` … (whatever `sharedFields` evaluates to now) and there is at least one.
+Side condition on goroutine lifetimes (Model/Ticker.lean): one ticker per `RunFS`, signalled but NOT joined, one `walkContext` for all roots of
+a `Run` — so "written in `RunFS` before the goroutine starts" is ordered by the `go` statement only w.r.t. the SAME root's ticker and counts
+here as an ordinary (unguarded unless under `statusMu`) walker-side write: it races with the previous root's ticker.  Only the `walkContext`
+literal of `InitWalkContext` is exempt. -/
 theorem C16_ticker_guarded :
     table.wellFormed = true ∧
     (funcs.idxOf "printStatus") ∈ tickerFuncs ∧ (funcs.idxOf "handleFile") ∈ walkerFuncs ∧
